@@ -179,7 +179,13 @@ def replay_obj(model):
         par.add("M", value=M)
         par.add("p_initial", value=pi)
         res = fp._obj_function(par, days, prod, pvt, pf)
+        # the same record when the well already had produced 250 before the first sample (cumulative production does not
+        # start at 0: a table cut at a later date, or rows filtered before the fit): the objective is off by exactly -250
+        res2 = fp._obj_function(par, days, prod + 250.0, pvt, pf)
     bad = bool(np.any(np.abs(res) > 1e-9 * (1 + np.abs(prod))))
+    if not bad and bool(np.any(np.abs(np.asarray(res2) + 250.0) > 1e-9 * (251 + np.abs(prod)))):
+        return True, {"what": f"objective for cumulative production shifted by 250 at the generating parameters = {np.asarray(res2).tolist()} (must be -250 everywhere: "
+                              f"M * recovery - production)"}
     return bad, {"what": f"objective at the generating parameters = {np.asarray(res).tolist()} (must be 0)"}
 
 
